@@ -717,6 +717,39 @@ async fn dispatch(op: String, a: Value) -> Value {
                 Err(e) => json!({"err": e.to_string()}),
             }
         }
+        // ---- C13: the log header at instants whose sub-second part has trailing zeros (the time stamp is then
+        // printed shorter). The loop waits for the wall clock to approach a 10 ms boundary and calls the real
+        // get_log_header back to back across it; reading the clock exactly on the boundary happens about once in a
+        // few hundred crossings. Each call runs under catch_unwind so that the loop goes on after a panic (the
+        // process-wide hook has recorded it).
+        "log_header_spin" => {
+            let dur = Duration::from_millis(u(&a, "duration_ms", 2000));
+            let t0 = std::time::Instant::now();
+            let (mut calls, mut short, mut panicked) = (0u64, 0u64, 0u64);
+            let mut example = String::new();
+            while t0.elapsed() < dur {
+                let now = std::time::SystemTime::now().duration_since(std::time::UNIX_EPOCH).unwrap();
+                let to_boundary = 10_000_000 - (now.subsec_nanos() % 10_000_000);
+                if to_boundary > 30_000 {
+                    std::hint::spin_loop();
+                    continue;
+                }
+                for _ in 0..400 {
+                    calls += 1;
+                    let level = if calls % 2 == 0 { LoggerLevel::Info } else { LoggerLevel::Warn };
+                    match std::panic::catch_unwind(|| proxy_agent_shared::logger::get_log_header(level)) {
+                        Ok(h) => {
+                            if h.len() < 34 {
+                                short += 1;
+                                example = h;
+                            }
+                        }
+                        Err(_) => panicked += 1,
+                    }
+                }
+            }
+            json!({"calls": calls, "short_headers": short, "panicked_calls": panicked, "example_short_header": example})
+        }
         // ---- C19 engines
         "logger_new" => {
             let l = RollingLogger::create_new(
